@@ -18,6 +18,8 @@ pub enum Mode {
     C05,
     C07,
     C15,
+    /// only: Estimate::estimate() is bit-for-bit quantile()
+    C20,
 }
 
 #[derive(Clone)]
@@ -146,6 +148,10 @@ impl QSpec {
                     }
                 }
             }
+            Mode::C20 => match guarded(|| q.estimate()) {
+                Ok(e) if e.to_bits() == est.to_bits() || (e.is_nan() && est.is_nan()) => {}
+                e => out.push(Violation { sig: "Quantile.estimate:differs-from-headline".into(), detail: format!("p = {:?}, after {} observations estimate() = {e:?} but quantile() = {est:?}", self.p, t.count) }),
+            },
             Mode::C15 => {
                 match guarded(|| q.len()) {
                     Ok(l) if l == t.count => {}
@@ -277,7 +283,7 @@ impl Spec for QSpec {
         match self.mode {
             Mode::C07 => s.count >= 1 && s.count <= 4,
             Mode::C05 => s.count >= 5,
-            Mode::C15 => true,
+            Mode::C15 | Mode::C20 => true,
         }
     }
 }
